@@ -680,6 +680,38 @@ func ruleC15(c *Ctx, r *Report) {
 			"the namespace the mode is decided on is the line's original attr.ns (no rewrite of attr.ns can precede the read)",
 			"the per-line mode is decided on a rewritten namespace: "+strings.Join(bad, "; "))
 	}
+	// the operation's namespace: attr.ns, and - for commands that mongod logs under
+	// "<db>.$cmd" (update / delete / insert batches) or lines that only carry attr.cmd -
+	// the command's own $db and collection. The prefix test must be able to see the latter.
+	{
+		keys := map[string]bool{}
+		allInstrs(root, func(i ssa.Instruction) {
+			call, ok := i.(*ssa.Call)
+			if !ok || calleeKey(&call.Call) != "strings.HasPrefix" {
+				return
+			}
+			var visit func(v ssa.Value, depth int)
+			visit = func(v ssa.Value, depth int) {
+				if depth > 10 || v == nil {
+					return
+				}
+				if k, ok := getKeyOfValue(v); ok {
+					keys[k] = true
+				}
+				if in, ok := v.(ssa.Instruction); ok {
+					for _, op := range in.Operands(nil) {
+						if *op != nil {
+							visit(*op, depth+1)
+						}
+					}
+				}
+			}
+			visit(call.Call.Args[0], 0)
+		})
+		r.Check(keys["ns"] && keys["$db"], "C15-R1", root.Name()+":mode-namespace-sources", c.Pos(root.Pos()),
+			"the namespace the mode is decided on is taken from attr.ns and, where that names the command collection, from the command's $db / collection",
+			"the per-line mode looks at attr.ns only: update / delete commands that mongod logs under '<db>.$cmd', and error lines that carry only attr.cmd, never match --redactFieldNames <db>.<coll> and keep their field names")
+	}
 	for _, d := range callsIn(root, func(k string, cc *ssa.Call) bool { return cc.Call.StaticCallee() == cmdFn }) {
 		key, _ := getKeyOfValue(d.Call.Args[0])
 		okArg := false
@@ -868,6 +900,16 @@ func ruleC15(c *Ctx, r *Report) {
 			"a key is renamed without a test that it does not start with '$': operator and wrapper keys missing from the tables ($options, $numberLong, accumulators ...) are pseudonymised as if they were user fields, so the line differs structurally from the run without the flag")
 	}
 	c01Dispatch2(c, r, p, []string{"sort"}, "C15-R3")
+	// documents of a command whose KEYS are field names (values are directions / flags /
+	// bounds): under the mode their keys must be renamed like the filter's
+	{
+		zs := p.zoneSets(cmdFn)
+		for _, k := range []string{"projection", "hint", "min", "max"} {
+			r.Check(len(zs[k]) > 0, "C15-R3", fmt.Sprintf("%s:field-name-zone(%s)", cmdFn.Name(), k), c.Pos(cmdFn.Pos()),
+				"cmd["+k+"] is walked under the field-name mode",
+				"cmd["+k+"] is never walked: the field names renamed in the filter, the sort document and the plan summary remain in clear as keys of "+k)
+		}
+	}
 	// output-field names that later stages use as field names are FieldName positions
 	// (kept in clear by default, renamed with the field under the flag) - not Exempt
 	{
